@@ -161,6 +161,7 @@ func registerConc(in *Interp) {
 			return nil // Put(nil) is ignored
 		}
 		in.setLib(c, append(append([]Value{}, items...), a[1]))
+		in.poolRelease(a[1])
 		return nil
 	}
 	H["(*sync.Pool).Get"] = func(in *Interp, a []Value, site ssa.CallInstruction) Value {
@@ -168,6 +169,7 @@ func registerConc(in *Interp) {
 		items, _ := in.lib(c).([]Value)
 		if n := len(items); n > 0 {
 			in.setLib(c, items[:n-1])
+			in.poolAcquire(items[n-1])
 			return items[n-1]
 		}
 		st := under(c.T).(*types.Struct)
